@@ -175,6 +175,23 @@ func refRounds(c xferCase, o *outServer, cli *endpoint) error {
 						i, kind, c.rounds()[:i], j, len(want), j > 0, err)
 				}
 				prior = mac
+				// Time Signed is the moment THIS envelope was signed (RFC 8945 §4.2 / §5.3.1: the timers of
+				// every message are digested): it cannot lie before the moment the producer handed the
+				// envelope's records to Transfer.Out, nor in the future (whole seconds, 1 s slack)
+				if kind == "xfr" {
+					t, _, _ := findTsig(b)
+					o.hmu.Lock()
+					hs := o.handoff[id]
+					o.hmu.Unlock()
+					now := time.Now().Unix()
+					if j < len(hs) && (int64(t.Time) < hs[j]-1 || int64(t.Time) > now+1) {
+						return pbt.Errf("request %d: envelope %d of %d is signed with Time Signed %d, but its records were handed to Transfer.Out at %d (now %d): every envelope must carry its own signing time, a receiver rejects it once it is older than the fudge (%d s)",
+							i, j, len(want), t.Time, hs[j], now, t.Fudge)
+					}
+					if c.ProducerMs > 0 && j == len(want)-1 {
+						pbt.Class("slow-producer-time-checked")
+					}
+				}
 			} else if _, ok, _ := findTsig(b); ok {
 				return pbt.Errf("request %d: message %d carries a TSIG although the request had none", i, j)
 			}
